@@ -1130,41 +1130,30 @@ pub enum SamplesMode {
     Never,
 }
 
-/// Value classes inside the VCF/BCF domain that the pinned noodles tree mishandles (established
-/// by the C09/C10 checks; see those modules and KNOWN_FINDINGS). They are produced only with
+/// Value classes inside the BCF domain that the noodles tree still mishandles, or that its BCF
+/// writer rejects (listed in KNOWN_FINDINGS; see props/c10.rs). They are produced only with
 /// probability `Mode::hazard_permille`/1000 per record (each class drawn independently), and
-/// never when it is 0.
+/// never when it is 0. All of them concern Target::Bcf; VCF text has no gated class left.
+/// (The classes CharReserved, EmptySampleRow, InfoMissingValue, GtRagged, GtPhasedMissing and
+/// InfoIntArrayLen1Wide were gated here until the defects behind them were repaired; they are now
+/// part of the ordinary domain.)
 #[derive(Clone, Copy, Debug, PartialEq, Eq, PartialOrd, Ord, Serialize, Deserialize)]
 pub enum Hazard {
-    /// VCF: a Character value that needs percent-encoding (`;=%,.` INFO, `:%,.` FORMAT, controls)
-    CharReserved = 0,
-    /// VCF: a sample whose fields are all dropped (text `.`)
-    EmptySampleRow = 1,
-    /// BCF: INFO `KEY=.` (field present, value missing)
-    InfoMissingValue = 2,
-    /// BCF: GT ploidies within one record other than {max, 1}
-    GtRagged = 3,
-    /// BCF: a phased missing allele (`0|.`)
-    GtPhasedMissing = 4,
-    /// BCF: a sample whose GT is missing altogether (`.`)
-    GtMissing = 5,
-    /// BCF: a FORMAT column in which every sample is missing
-    ColumnAllMissing = 6,
-    /// BCF: a `,` inside an element of a String array
-    StrCommaInArray = 7,
-    /// BCF: a String equal to `.` as array element or FORMAT scalar; Character `.`/`,` likewise
-    DotValue = 8,
-    /// BCF: INFO Integer array of one element outside int8 (lazy reader returns a scalar)
-    InfoIntArrayLen1Wide = 9,
-    /// both: a non-ASCII Character value
-    CharNonAscii = 10,
-    /// (unused: control characters inside BCF strings round-trip on the pinned tree)
-    StrControl = 11,
-    /// BCF: `%` followed by two hex digits inside an element of a String array (the lazy reader
+    /// a sample whose GT is missing altogether (`.`): the BCF writer returns `Err`
+    GtMissing = 0,
+    /// a FORMAT column in which every sample is missing
+    ColumnAllMissing = 1,
+    /// a `,` inside an element of a String array
+    StrCommaInArray = 2,
+    /// a String equal to `.` as array element or FORMAT scalar; Character `.`/`,` likewise
+    DotValue = 3,
+    /// a non-ASCII Character value (the lazy `bcf::Record` rejects it)
+    CharNonAscii = 4,
+    /// `%` followed by two hex digits inside an element of a String array (the lazy reader
     /// percent-decodes array elements, nothing else does)
-    StrArrayPercentEscape = 12,
+    StrArrayPercentEscape = 5,
 }
-pub const N_HAZARDS: usize = 13;
+pub const N_HAZARDS: usize = 6;
 
 #[derive(Clone, Debug)]
 pub struct Mode {
@@ -1192,7 +1181,7 @@ pub struct Mode {
 impl Mode {
     /// Full VCF text domain of C09 (known-defect classes at 3 % each).
     pub fn vcf_full() -> Mode {
-        Mode { target: Target::VcfText, idx: IdxMode::Never, samples: SamplesMode::Any, minors: vec![2, 3, 4, 5], hazard_permille: 30, max_pos: i32::MAX as u32, long_values: true, max_records: 10, undeclared: true, extended_numbers_permille: 0, telomere: true }
+        Mode { target: Target::VcfText, idx: IdxMode::Mixed, samples: SamplesMode::Any, minors: vec![2, 3, 4, 5], hazard_permille: 30, max_pos: i32::MAX as u32, long_values: true, max_records: 10, undeclared: true, extended_numbers_permille: 0, telomere: true }
     }
     /// VCF documents that the pinned tree round-trips (for drivers, indexes, chunking, async …).
     pub fn vcf_safe() -> Mode {
@@ -1204,7 +1193,7 @@ impl Mode {
     }
     /// BCF documents that the pinned tree round-trips (contigs declared, no IDX, no hazards).
     pub fn bcf_safe() -> Mode {
-        Mode { idx: IdxMode::Never, hazard_permille: 0, long_values: false, telomere: false, ..Mode::bcf_full() }
+        Mode { hazard_permille: 0, long_values: false, telomere: false, ..Mode::bcf_full() }
     }
 }
 
@@ -1783,7 +1772,7 @@ pub fn record(header: &VarHeader, mode: &Mode) -> BoxedStrategy<VarRecord> {
         (any::<u16>(), 0u16..1000, word(CONTIG_FIRST, CONTIG_REST, 5), position(mode.max_pos), 0u16..1000, proptest::collection::vec(record_id(), 0..3), bases(3, mode.long_values), 0u8..100, alts, qual),
         (0u8..100, proptest::collection::vec(any::<u16>(), 1..4), word("uf", ALNUM, 4), infos, wild, fmts),
         (
-            prop_oneof![1 => Just(1u8), 7 => Just(2u8), 1 => Just(3u8), 1 => Just(4u8)],
+            prop_oneof![1 => Just(1u8), 5 => Just(2u8), 2 => Just(3u8), 2 => Just(4u8)],
             proptest::collection::vec(0u8..100, ns),
             proptest::collection::vec(proptest::collection::vec((any::<u16>(), 0u8..100, any::<bool>()), 4), ns),
             proptest::collection::vec((0u8..100, 0u8..8), ns),
@@ -1870,18 +1859,13 @@ impl Ctx<'_> {
     }
     fn fix_char(&self, c: char, info: bool, in_array: bool) -> char {
         let mut c = c;
-        if !c.is_ascii() && !self.on(Hazard::CharNonAscii) {
-            c = 'u';
-        }
         if self.bcf() {
+            if !c.is_ascii() && !self.on(Hazard::CharNonAscii) {
+                c = 'u';
+            }
             // stored raw: only `.` / `,` inside arrays and `.` as FORMAT scalar are ambiguous
             if (c == '.' && (in_array || !info) || c == ',' && in_array) && !self.on(Hazard::DotValue) {
                 c = 'd';
-            }
-        } else {
-            let reserved = c.is_ascii_control() || matches!(c, '%' | ',' | '.') || if info { matches!(c, ';' | '=') } else { c == ':' };
-            if reserved && !self.on(Hazard::CharReserved) {
-                c = 'r';
             }
         }
         c
@@ -1923,11 +1907,7 @@ fn info_value(d_num: Num, d_ty: Ty, p: &Pool, n_alt: usize, cx: &Ctx) -> Option<
             if scalar {
                 InfoValue::Integer(v[0])
             } else {
-                let mut a = with_missing(cyc(v, n), &p.miss, 10);
-                if cx.bcf() && a.len() == 1 && !cx.on(Hazard::InfoIntArrayLen1Wide) {
-                    a[0] = a[0].map(|x| if (-120..=127).contains(&x) { x } else { x.rem_euclid(100) });
-                }
-                InfoValue::IntArray(a)
+                InfoValue::IntArray(with_missing(cyc(v, n), &p.miss, 10))
             }
         }
         PoolVals::F(v) => {
@@ -2112,19 +2092,9 @@ fn build_record(h: &VarHeader, mode: &Mode, raw: RawRecord) -> VarRecord {
         }
         // a Flag has no value entry in the VCF grammar, so `FLAG=.` is not generated
         let whole_missing = d.ty != Ty::Flag && (p.whole_missing < 6 || v.as_ref().map(one_element_missing_info).unwrap_or(false));
-        if whole_missing && (!cx.bcf() || cx.on(Hazard::InfoMissingValue)) {
+        // `KEY=.`; a lone missing element (`[.]`) is the same thing in either format
+        if whole_missing {
             v = None;
-        } else if let Some(x) = &mut v {
-            // not allowed to go missing: replace a lone missing element by its pool value
-            if one_element_missing_info(x) {
-                *x = match (&p.vals, &*x) {
-                    (PoolVals::I(vs), _) => InfoValue::IntArray(vec![Some(vs[0].rem_euclid(100))]),
-                    (PoolVals::F(vs), _) => InfoValue::FloatArray(vec![Some(vs[0])]),
-                    (PoolVals::C(vs), _) => InfoValue::CharArray(vec![Some(cx.fix_char(vs[0], true, true))]),
-                    (PoolVals::S(vs), _) => InfoValue::StrArray(vec![Some(cx.fix_str(&vs[0], true, true))]),
-                    (PoolVals::None, x) => x.clone(),
-                };
-            }
         }
         entries.push((p.order, d.id.clone(), v));
     }
@@ -2179,9 +2149,9 @@ fn build_record(h: &VarHeader, mode: &Mode, raw: RawRecord) -> VarRecord {
         let ploidy: Vec<usize> = (0..ns)
             .map(|i| {
                 let d = raw.sample_ploidy[i];
-                if i == 0 || d < 70 {
+                if i == 0 || d < 62 {
                     pmax
-                } else if d < 85 || (cx.bcf() && !cx.on(Hazard::GtRagged)) {
+                } else if d < 72 {
                     1
                 } else {
                     1 + (d as usize) % pmax.max(1)
@@ -2218,29 +2188,8 @@ fn build_record(h: &VarHeader, mode: &Mode, raw: RawRecord) -> VarRecord {
                     (a, *ph)
                 })
                 .collect();
-            if cx.bcf() && !cx.on(Hazard::GtPhasedMissing) {
-                for (i, a) in al.iter_mut().enumerate() {
-                    // the first allele's bit is governed by the rule below
-                    if a.0.is_none() && i > 0 {
-                        a.1 = false;
-                    }
-                }
-                if al[0].0.is_none() && h.minor >= 4 {
-                    al[0].1 = false;
-                }
-            }
             if h.minor < 4 {
                 al[0].1 = implicit_first_phasing(&al);
-                if cx.bcf() && al[0].0.is_none() && al[0].1 && !cx.on(Hazard::GtPhasedMissing) {
-                    // implicit phasing of a missing first allele would be "phased": make the
-                    // genotype contain an unphased separator, or give the allele a value
-                    if al.len() > 1 {
-                        al[1].1 = false;
-                        al[0].1 = implicit_first_phasing(&al);
-                    } else {
-                        al[0].0 = Some(0);
-                    }
-                }
             }
             Some(SampleValue::Genotype(al))
         };
@@ -2333,7 +2282,9 @@ fn build_record(h: &VarHeader, mode: &Mode, raw: RawRecord) -> VarRecord {
         for (si, row) in samples.iter_mut().enumerate() {
             let (draw, n) = raw.drops[si];
             if draw < 15 && !row.is_empty() {
-                let keep_min = if text && !cx.on(Hazard::EmptySampleRow) { 1 } else if cx.bcf() { 1 } else { 0 };
+                // BCF has no way to say "dropped" for the first key (a missing GT is a gated class);
+                // in text all fields may go: the sample column is then `.`
+                let keep_min = if cx.bcf() { 1 } else { 0 };
                 let n = (n as usize).min(row.len() - keep_min.min(row.len()));
                 row.truncate(row.len() - n);
             }
@@ -2350,24 +2301,6 @@ fn build_record(h: &VarHeader, mode: &Mode, raw: RawRecord) -> VarRecord {
                         samples[0].push(None);
                     }
                     samples[0][ki] = Some(solid(&format[ki], declared_fi, 0));
-                }
-            }
-        }
-        // VCF text: a sample column that is `.` (no value, or a single missing one) is a hazard
-        // class (see Hazard::EmptySampleRow); otherwise give its first key a value
-        if text && !format.is_empty() && !cx.on(Hazard::EmptySampleRow) {
-            let key0 = format[0].clone();
-            let declared0 = chosen.iter().copied().find(|&fi| h.formats[fi].id == key0);
-            for si in 0..ns {
-                let degenerate = samples[si].is_empty()
-                    || samples[si].len() == 1
-                        && match &samples[si][0] {
-                            None => true,
-                            Some(SampleValue::Genotype(g)) => h.minor < 4 && g.len() == 1 && g[0].0.is_none(),
-                            _ => false,
-                        };
-                if degenerate {
-                    samples[si] = vec![Some(solid(&key0, declared0, si))];
                 }
             }
         }
